@@ -23,6 +23,9 @@ REPO = os.environ.get("VERIF_REPO", "/repo")
 SPEC = os.path.join(VERIF, "spec")
 HARNESS = os.path.join(VERIF, "harness")
 EVIDENCE = os.path.join(VERIF, "evidence")
+if os.path.realpath(REPO) != "/repo":
+    # runs against a scratch worktree never touch the committed evidence
+    EVIDENCE = os.path.join(VERIF, ".work", "evidence-" + os.path.basename(os.path.realpath(REPO)))
 WORKROOT = os.path.join(VERIF, ".work")
 TLA_JAR = "/opt/veriftools/tla/tla2tools.jar:/opt/veriftools/tla/CommunityModules-deps.jar"
 
@@ -202,6 +205,15 @@ class Ctx:
         if env:
             e.update({k: str(v) for k, v in env.items()})
         cmd = [toolchain, "test", "-count=1", "-tags", tags, "-timeout", "%ds" % timeout]
+        if os.path.realpath(REPO) != "/repo":
+            # development aid: run the harness against a scratch worktree (VERIF_REPO) without touching /repo
+            alt = os.path.join(self.work, "alt.mod")
+            with open(os.path.join(HARNESS, "go.mod")) as f:
+                mod = f.read().replace("=> /repo", "=> " + os.path.realpath(REPO))
+            with open(alt, "w") as f:
+                f.write(mod)
+            shutil.copy(os.path.join(REPO, "go.sum"), os.path.join(self.work, "alt.sum"))
+            cmd.append("-modfile=" + alt)
         if race:
             cmd.append("-race")
         if run:
